@@ -45,8 +45,11 @@ func c18paths(c *Ctx) {
 		"/w",
 		// a relative prefix (module path of a -trimpath build) whose short form is an absolute path
 		"github.com/acme-internal/billing",
+		// the directory the Go distribution itself is installed under (a toolchain below $HOME/sdk, a registered tools
+		// directory): source files of the standard library are files under a protected prefix like any other
+		filepath.Dir(runtime.GOROOT()),
 		"/ci/" + strings.Repeat("w", 59), "/ci/" + strings.Repeat("x", 60), "/ci/" + strings.Repeat("y", 61), "/store/" + strings.Repeat("0123456789abcdef", 7) + "/objects", "/deep/" + strings.Repeat("segment-of-a-long-path/", 12) + "end"}
-	replPool := []string{"~d", "~p", "$SRV", "~w", "~alice", "CI:", "~deep", "~gosrc", "~work", "~tmp", "~u", "~bin", "~ws", "~stage", "~brace", "", "", "GH:acme", "~pc", "W:", "/srv/data/projects/work", "/billing", "~L63", "~L64", "~L65", "~store", "~long"}
+	replPool := []string{"~d", "~p", "$SRV", "~w", "~alice", "CI:", "~deep", "~gosrc", "~work", "~tmp", "~u", "~bin", "~ws", "~stage", "~brace", "", "", "GH:acme", "~pc", "W:", "/srv/data/projects/work", "/billing", "~sdk", "~L63", "~L64", "~L65", "~store", "~long"}
 	if len(prefixPool) != len(replPool) {
 		panic("harness: prefixPool and replPool differ in length")
 	}
@@ -110,6 +113,7 @@ func c18paths(c *Ctx) {
 		var hist []string
 		nops := r.Intn(12)
 		added := map[string]bool{}
+		emptied := false
 		idxOf := func(k string) int {
 			for i, x := range prefixPool {
 				if x == k {
@@ -133,6 +137,23 @@ func c18paths(c *Ctx) {
 				delete(table, pair[0])
 				hist = append(hist, "add "+pair[0], "add "+pair[1], "remove "+pair[0])
 				c.R.Add("histories_that_remove_the_parent_of_a_registered_directory", 1)
+			case 6:
+				// the plain table is emptied altogether (ResetKnownPathMapping, or both start-up entries removed one by one):
+				// the regexp rules and the built-in volume rule are tables of their own and apply as before
+				if r.Bool() {
+					slog.ResetKnownPathMapping()
+					hist = append(hist, "ResetKnownPathMapping()")
+				} else {
+					for k := range table {
+						slog.RemoveKnownPathMapping(k)
+					}
+					hist = append(hist, "remove every plain mapping")
+				}
+				for k := range table {
+					delete(table, k)
+				}
+				emptied = true
+				c.R.Add("histories_that_empty_the_plain_table", 1)
 			case 8:
 				// two registered directories whose names differ in letter case only (or by a Unicode case-fold pair): two
 				// directories; removing one leaves the other registered
@@ -198,6 +219,11 @@ func c18paths(c *Ctx) {
 			for k := range added {
 				slog.RemoveKnownPathMapping(k)
 			}
+			if emptied {
+				for k, v := range baseMap { // the table the process started with
+					slog.AddKnownPathMapping(k, v)
+				}
+			}
 			for _, x := range rxs {
 				slog.RemoveKnownPathRegexpMapping(x.expr)
 			}
@@ -208,6 +234,9 @@ func c18paths(c *Ctx) {
 		var keys []string
 		for k := range table {
 			keys = append(keys, k)
+		}
+		if len(keys) == 0 {
+			keys = []string{"/nothing/is/registered/any/more"} // (the plain table was emptied: such a path is outside every plain mapping)
 		}
 		nq := 12
 		c.R.AddEvals(int64(nq) - 1) // every query is judged on its own
@@ -223,7 +252,9 @@ func c18paths(c *Ctx) {
 				k := gen.Pick(r, keys)
 				p = k + "/" + gen.Pick(r, []string{"main.go", "pkg/util/x.go", "a b/c.go", "ünï/file.go", "deep/er/and/deeper/f.go", ".hidden/z.go",
 					// entries whose names START with two dots (the ..data / ..<timestamp> directories of projected volumes, ..tmp of editors)
-					"..data/app/main.go", "...tmp/main.go", "..2024_05_01_12_00_00.123456789/hook.go", "..data"})
+					"..data/app/main.go", "...tmp/main.go", "..2024_05_01_12_00_00.123456789/hook.go", "..data",
+					// (under the directory of the Go distribution this is a source file of the standard library)
+					filepath.Base(runtime.GOROOT()) + "/src/sync/once.go", filepath.Base(runtime.GOROOT()) + "/src/net/http/server.go"})
 			case 4: // the prefix itself
 				p = gen.Pick(r, keys)
 			case 5: // near miss
